@@ -16,7 +16,7 @@ from ..grammar import schema
 from ..interp import Pins, find_nodes, unparse
 from ..kinds import Kinds
 from ..model import AnalysisError, Func
-from .util import ancestors, enclosing_loop, enclosing_stmt, every_iteration_reaches, fmt, is_const, parent, parents, returns_of, single_def
+from .util import ancestors, enclosing_loop, enclosing_stmt, every_iteration_reaches, fmt, is_const, parent, parents, returns_of, same, single_def
 
 P = ("C03",)
 OPT_FIELDS = {"left_guard", "right_guard", "guard"}
@@ -309,6 +309,46 @@ def r_throw(ck: Checker) -> None:
                    f"`{short(unparse(node))}` - guarded at the call sites (rule C03.THROW.domain)", "an exception raised on an input-dependent condition aborts optimize", rule="C03.THROW.raise")
 
 
+def r_symbol_access(ck: Checker) -> None:
+    """`<t>.symbol.number` / `.string` raise RuntimeError unless the symbol has that type: the access is dominated by the
+    matching `<t>.symbol.type == SymbolType.X` test (same conjunction, or a dominating test)"""
+    want = {"number": "SymbolType.Number", "string": "SymbolType.String"}
+    n = 0
+    for func in ck.prg.funcs.values():
+        it = None
+        for node in find_nodes(func.node, lambda x: isinstance(x, ast.Attribute) and x.attr in want, True):
+            if func.module.name in ("ngo.utils.parser", "ngo.__main__"):
+                continue
+            owner = func
+            base = node.value  # type: ignore[attr-defined]
+            it = it or ck.interp(owner)
+            stmt = enclosing_stmt(owner, node)
+            if stmt is None or not it.reachable(stmt):
+                continue
+            bases = it.texts(stmt, base)
+            if not bases or not all(b.endswith(".symbol") for b in bases):
+                continue  # not a clingo Symbol read from a SymbolicTerm
+            n += 1
+            test = ast.parse(f"{unparse(base)}.type == {want[node.attr]}", mode="eval").body  # type: ignore[attr-defined]
+            ok, why = False, ""
+            # the same conjunction: an earlier operand of an enclosing `and`
+            child: ast.AST = node
+            for anc in ancestors(owner, node):
+                if isinstance(anc, ast.BoolOp) and isinstance(anc.op, ast.And):
+                    idx = next((i for i, v in enumerate(anc.values) if v is child or any(s is child for s in ast.walk(v))), None)
+                    if idx is not None and any(same(unparse(v), unparse(test)) for v in anc.values[:idx]):
+                        ok, why = True, "tested by an earlier operand of the same conjunction"
+                        break
+                if isinstance(anc, ast.stmt):
+                    break
+                child = anc
+            if not ok:
+                ok, why = _discharged(ck, owner, stmt, test)
+            ck.add(f"{short(unparse(node), 60)}", ok, owner, node, f"`{short(unparse(node), 70)}` requires `{unparse(test)}`: {why}",
+                   "clingo raises RuntimeError when the symbol of a term is not of that type (`#const n=2. {a;b} n.`, `#sup`, strings): optimize aborts instead of leaving the construct unchanged", rule="C03.THROW.symbol")
+    ck.need(n >= 5, f"typed symbol reads found ({n})")
+
+
 def r_domain_calls(ck: Checker) -> None:
     """create_domain / create_next_pred_for_annotated_pred / domain_predicate are only called for predicates that have a domain"""
     DP = "ngo.dependency:DomainPredicates"
@@ -501,6 +541,7 @@ RULES = [
     Rule("C03.KIND.optderef", P + ("C12",), r_optderef),
     Rule("C03.THROW", P, r_throw),
     Rule("C03.THROW.domain", P, r_domain_calls),
+    Rule("C03.THROW.symbol", P, r_symbol_access),
     Rule("C03.THROW.containment", P, r_containment),
     Rule("C03.MYPY", P, r_mypy),
     Rule("C03.LOOP", P, r_loops),
